@@ -162,7 +162,7 @@ def run_case(case):
         if nontrivial:
             fps.append(f"{dur_class}:{np.round(np.log10(dt / duration), 0)}:{case['style']}:{mod}:{nk}:{ntraj}:{hash(tuple(np.round(req, 9))) & 0xffff:x}")
         # ---- one solver step per interval (small runs only)
-        if it < case["runs"] and len(tt) <= 400 and nk in ("none", "spam", "detuning"):
+        if it < case["runs"] and len(tt) <= 400 and nk in ("none", "detuning"):  # SPAM (bad atoms) is judged by C25
             steps = {"sv": 0, "mps": 0}
             o_sv, o_mps = svi.SVBackendImpl.step, mpi.MPSBackendImpl.timestep_complete
 
